@@ -5,12 +5,14 @@
             C04_no_dangling, C04_commit_window_protected, C04_never_deletes_protected,
             C04_apply_never_panics
      C15  concurrent calls always complete (lock discipline, deadlock freedom)
-            C15_lock_order, holds_sound, readers_sound, S_excludes_readers,
+            C15_lock_order, C15_readers_shared_only, C15_iter_step,
+            holds_sound, readers_sound, S_excludes_readers,
             acquires_sound, acquires_complete,
             C15_deadlock_free            (progress / termination: ConcProgress.v)
      C05  reads
             C05_read_never_fails  (no CMissing result in any reachable state, unconditionally),
-            C05_read_returns_indexed_content, C05_lookup_step, C05_retry_sees_current
+            C05_read_returns_indexed_slice (get and get_range), C05_read_returns_indexed_content
+            (get: pc_mode = MFull), C05_lookup_step, C05_retry_sees_current
             (full linearizability of reads is NOT claimed)
             no_faults_no_errors  (without faults no call returns CErr)
      C07  exactness of the blob directory at quiescence
@@ -51,7 +53,7 @@ Definition holds (p : pc) : list lockname :=
 Definition acquires (p : pc) : list lockname :=
   match p with
   | PILock _ _ | PDropI _ _ _ | WLockI _ | OLockI (_ :: _) _ _ => [LI]
-  | WLockS _ | WCkS _ _ | RRead _ | RRRead _ _ | GRead _ _ | GReread _ _ | ORead _ _ _ _ => [LS]
+  | WLockS _ | WCkS _ _ | RRead _ | RRRead _ _ | GRead _ _ | GReread _ _ _ | IRead | ORead _ _ _ _ => [LS]
   | WLockW _ | WCkW _ _ => [LW]
   | _ => []
   end.
@@ -259,6 +261,32 @@ Section ConcProofs.
                end; discriminate.
   Qed.
 
+  (* reads (get, get_size, get_range) and iteration take the state lock in SHARED mode only,
+     and no other lock: the steps leaving GRead / GReread / IRead acquire S non-exclusively
+     while holding nothing *)
+  Theorem C15_readers_shared_only p :
+    (exists k md, p = GRead k md) \/ (exists k it md, p = GReread k it md) \/ p = IRead ->
+    acquires p = [LS] /\ excl p = false /\ holds p = [].
+  Proof using.
+    intros [(k & md & ->)|[(k & it & md & ->)| ->]]; repeat split.
+  Qed.
+
+  (* the iteration step: enabled exactly when nobody holds S exclusively (shared holders and
+     the holder of I do not block it); it returns the key list of the current key map, changes
+     no lock word and holds nothing afterwards (the read guard does not outlive the step) *)
+  Theorem C15_iter_step g t ts : tget (g_thr g) t = Some ts -> t_pc ts = IRead ->
+    (enabled H cmp nops bad ckbad g t = true <-> g_S g = None) /\
+    forall g', step g t = Some g' ->
+      g_I g' = g_I g /\ g_S g' = g_S g /\ g_R g' = g_R g /\ g_idx g' = g_idx g /\ g_cas g' = g_cas g /\
+      tget (g_thr g') t =
+        Some (mkT (t_calls ts) Idle (t_res ts ++ [CKeys (map fst (km (g_idx g)))])).
+  Proof using.
+    intros Ht Hpc. unfold enabled, cstep. rewrite Ht, Hpc. split.
+    - destruct (g_S g); cbn [free]; split; intros X; try reflexivity; discriminate X.
+    - intros g'. destruct (free (g_S g)); [|discriminate]. intros E. injection E as <-.
+      unfold finish. cbn [g_I g_S g_R g_idx g_cas g_thr]. repeat split. apply tget_tset_same.
+  Qed.
+
   (* an exclusive holder of S and shared holders never coexist *)
   Theorem S_excludes_readers g : Reach g -> ~ (g_S g <> None /\ g_R g <> []).
   Proof using cmp_refl cmp_eq cmp_antisym cmp_trans thr0_nodup cas0_sorted cas0_named NoCollideC.
@@ -268,13 +296,13 @@ Section ConcProofs.
   (* the shared holders are exactly the readers parked at GOpenL *)
   Theorem readers_sound g t : Reach g ->
     NoDup (g_R g) /\
-    (In t (g_R g) <-> exists ts k it, tget (g_thr g) t = Some ts /\ t_pc ts = GOpenL k it).
+    (In t (g_R g) <-> exists ts k it md, tget (g_thr g) t = Some ts /\ t_pc ts = GOpenL k it md).
   Proof using cmp_refl cmp_eq cmp_antisym cmp_trans thr0_nodup cas0_sorted cas0_named NoCollideC.
     intros R. destruct (ci_R _ _ _ _ _ _ (rinv g R)) as [ND HR]. split; [exact ND|].
     rewrite HR. split.
     - intros (ts & G & Hh). destruct (t_pc ts) eqn:Hpc; try discriminate.
-      exists ts, k, it. split; assumption.
-    - intros (ts & k & it & G & Hpc). exists ts. split; [exact G|rewrite Hpc; reflexivity].
+      exists ts, k, it, md. split; assumption.
+    - intros (ts & k & it & md & G & Hpc). exists ts. split; [exact G|rewrite Hpc; reflexivity].
   Qed.
 
   (* [holds] agrees with the lock words of every reachable state *)
@@ -469,17 +497,31 @@ Section ConcProofs.
     apply A. intros t ts G. apply tget_init in G. destruct G as (cs & _ & ->). exact I.
   Qed.
 
-  (* a step that appends [CBytes (Some c)] to the results of t is an open_blob step of a KGet:
-     the thread was parked at GOpen k it (first attempt) or at GOpenL k it (the retry under
-     the read lock, where it IS the current value of k); c is the blob stored under ihash it,
-     it hashes to ihash it and has the recorded size *)
-  Theorem C05_read_returns_indexed_content g t ts g' ts' c : Reach g ->
+  (* the read mode carried by a reader's pc: MFull = get, MSize = get_size, MRange a b = get_range *)
+  Definition pc_mode (p : pc) : option rmode :=
+    match p with
+    | GRead _ md | GLooked _ _ md | GOpen _ _ md | GReread _ _ md | GOpenL _ _ md => Some md
+    | _ => None
+    end.
+
+  (* a step that appends [CBytes (Some c)] to the results of t is a step of a read (get or
+     get_range).  Either it is an open_blob step: the thread was parked at GOpen k it md (first
+     attempt) or at GOpenL k it md (the retry under the read lock, where it IS the current value
+     of k); the blob x stored under ihash it hashes to ihash it, has the recorded size, and c
+     is what [read_result md it] makes of x (x itself for a get, a slice of x for a get_range).
+     Or it is the empty-range exit of a get_range, decided from the item alone: at GLooked
+     with the item looked up one step before, or at GReread with the CURRENT item of k. *)
+  Theorem C05_read_returns_indexed_slice g t ts g' ts' c : Reach g ->
     tget (g_thr g) t = Some ts -> step g t = Some g' -> tget (g_thr g') t = Some ts' ->
     t_res ts' = t_res ts ++ [CBytes (Some c)] ->
-    exists k it, (t_pc ts = GOpen k it \/
-                  (t_pc ts = GOpenL k it /\ sm_get cmp (km (g_idx g)) k = Some it)) /\
-                 sm_get lex_cmp (g_cas g) (ihash it) = Some c /\
-                 H c = ihash it /\ len c = isize it.
+    exists k it md,
+      ((t_pc ts = GOpen k it md \/
+        (t_pc ts = GOpenL k it md /\ sm_get cmp (km (g_idx g)) k = Some it)) /\
+       exists x, sm_get lex_cmp (g_cas g) (ihash it) = Some x /\ H x = ihash it /\
+                 len x = isize it /\ read_result md it x = CBytes (Some c)) \/
+      ((t_pc ts = GLooked k it md \/
+        ((exists it0, t_pc ts = GReread k it0 md) /\ sm_get cmp (km (g_idx g)) k = Some it)) /\
+       pre_open md it = Some (CBytes (Some c))).
   Proof using cmp_refl cmp_eq cmp_antisym cmp_trans thr0_nodup cas0_sorted cas0_named NoCollideC.
     intros R Ht St Ht' Hres. pose proof (rinv g R) as I.
     destruct (ci_pc _ _ _ _ _ _ I _ _ Ht) as [Pt _].
@@ -492,27 +534,58 @@ Section ConcProofs.
       try (exfalso; apply (f_equal (@length cres)) in Hres; rewrite app_length in Hres;
            cbn [length] in Hres; lia);
       try (apply app_inv_head in Hres; discriminate);
-      try (apply app_inv_head in Hres; destruct size_only; discriminate);
+      try (apply app_inv_head in Hres; destruct md; discriminate);
       try (apply app_inv_head in Hres; injection Hres as Hres; rewrite Hres in Pr; destruct Pr);
       try (destruct ckbad; apply app_inv_head in Hres; injection Hres as Hres;
            [discriminate Hres|rewrite Hres in Pr; destruct Pr]).
-    - (* GOpen *)
+    - (* GLooked *)
       apply app_inv_head in Hres. injection Hres as ->.
-      exists k, it. split; [left; reflexivity|]. split; [assumption|].
-      match goal with G : sm_get lex_cmp (g_cas g) (ihash it) = Some _ |- _ =>
+      exists k, it, md. right. split; [left; reflexivity|assumption].
+    - (* GOpen *)
+      apply app_inv_head in Hres. injection Hres as Hres.
+      exists k, it, md. left. split; [left; reflexivity|].
+      match goal with G : sm_get lex_cmp (g_cas g) (ihash it) = Some ?x |- _ =>
+        exists x; split; [exact G|];
         apply (lex_get_in _ _ _ (ci_cas_sorted _ _ _ _ _ _ I)) in G;
         destruct (ci_cas_named _ _ _ _ _ _ I _ _ G) as [Hh Ic] end.
-      split; [exact Hh|].
+      split; [exact Hh|]. split; [|exact Hres].
       destruct Pt as (c0 & Ic0 & Hh0 & Hl0).
-      assert (c0 = c) by (apply NoCollideC; try assumption; congruence).
+      match goal with Ic : In ?x _ |- len ?x = _ =>
+        assert (c0 = x) by (apply NoCollideC; try assumption; congruence) end.
       subst c0. exact Hl0.
-    - (* GOpenL *)
+    - (* GReread *)
       apply app_inv_head in Hres. injection Hres as ->.
-      exists k, it. split; [right; split; [reflexivity|exact Pt]|]. split; [assumption|].
+      match goal with G : sm_get cmp _ k = Some ?cur |- _ =>
+        exists k, cur, md; right; split; [right; split; [eexists; reflexivity|exact G]|assumption] end.
+    - (* GOpenL *)
+      apply app_inv_head in Hres. injection Hres as Hres.
+      exists k, it, md. left. split; [right; split; [reflexivity|exact Pt]|].
       destruct (C04_no_dangling g R _ _ Pt) as (c1 & G1 & Hh & Hl).
       match goal with G : sm_get lex_cmp (g_cas g) (ihash it) = Some _ |- _ =>
         rewrite G in G1; injection G1 as <- end.
-      split; assumption.
+      eexists. split; [eassumption|]. split; [exact Hh|]. split; [exact Hl|exact Hres].
+  Qed.
+
+  (* the statement for get (mode MFull): the step is an open_blob step and the returned
+     content is the WHOLE blob stored under the hash of the item *)
+  Theorem C05_read_returns_indexed_content g t ts g' ts' c : Reach g ->
+    tget (g_thr g) t = Some ts -> step g t = Some g' -> tget (g_thr g') t = Some ts' ->
+    t_res ts' = t_res ts ++ [CBytes (Some c)] -> pc_mode (t_pc ts) = Some MFull ->
+    exists k it, (t_pc ts = GOpen k it MFull \/
+                  (t_pc ts = GOpenL k it MFull /\ sm_get cmp (km (g_idx g)) k = Some it)) /\
+                 sm_get lex_cmp (g_cas g) (ihash it) = Some c /\
+                 H c = ihash it /\ len c = isize it.
+  Proof using cmp_refl cmp_eq cmp_antisym cmp_trans thr0_nodup cas0_sorted cas0_named NoCollideC.
+    intros R Ht St Ht' Hres Hm.
+    destruct (C05_read_returns_indexed_slice g t ts g' ts' c R Ht St Ht' Hres)
+      as (k & it & md & [(Hp & x & G & Hh & Hl & Hr)|(Hp & Hr)]).
+    - assert (md = MFull).
+      { destruct Hp as [Hp|[Hp _]]; rewrite Hp in Hm; cbn [pc_mode] in Hm; congruence. }
+      subst md. cbn [read_result] in Hr. injection Hr as ->.
+      exists k, it. split; [exact Hp|]. split; [exact G|]. split; assumption.
+    - exfalso. assert (md = MFull).
+      { destruct Hp as [Hp|[[it0 Hp] _]]; rewrite Hp in Hm; cbn [pc_mode] in Hm; congruence. }
+      subst md. discriminate.
   Qed.
 
   (* the item carried by a reader was the value of the key at the thread's last lookup step:
@@ -523,27 +596,29 @@ Section ConcProofs.
      blob: clause GOpenL of pc_ok) *)
   Theorem C05_lookup_step g t ts g' ts' : 
     tget (g_thr g) t = Some ts -> step g t = Some g' -> tget (g_thr g') t = Some ts' ->
-    (forall k it so, t_pc ts' = GLooked k it so ->
-       t_pc ts = GRead k so /\ sm_get cmp (km (g_idx g)) k = Some it) /\
-    (forall k it, t_pc ts' = GOpen k it -> t_pc ts = GLooked k it false) /\
-    (forall k it, t_pc ts' = GReread k it ->
-       t_pc ts = GOpen k it /\ sm_get lex_cmp (g_cas g) (ihash it) = None) /\
-    (forall k it, t_pc ts' = GOpenL k it ->
-       exists it0, t_pc ts = GReread k it0 /\ sm_get cmp (km (g_idx g)) k = Some it).
+    (forall k it md, t_pc ts' = GLooked k it md ->
+       t_pc ts = GRead k md /\ sm_get cmp (km (g_idx g)) k = Some it) /\
+    (forall k it md, t_pc ts' = GOpen k it md ->
+       t_pc ts = GLooked k it md /\ pre_open md it = None) /\
+    (forall k it md, t_pc ts' = GReread k it md ->
+       t_pc ts = GOpen k it md /\ sm_get lex_cmp (g_cas g) (ihash it) = None) /\
+    (forall k it md, t_pc ts' = GOpenL k it md ->
+       exists it0, t_pc ts = GReread k it0 md /\ sm_get cmp (km (g_idx g)) k = Some it /\
+                   pre_open md it = None).
   Proof using.
     intros Ht St Ht'. revert St. unfold cstep. rewrite Ht.
     destruct (t_pc ts) eqn:Hpc; head_destruct; try discriminate;
       intros E; injection E as <-; unfold finish, set_pc in Ht'; cbn [g_thr] in Ht';
       rewrite tget_tset_same in Ht'; injection Ht' as <-; cbn [t_pc];
       (split; [|split; [|split]]); intros; try discriminate;
-      match goal with Hx : _ = _ |- _ => injection Hx; intros; subst end; auto.
-    eexists. split; [reflexivity|assumption].
+      match goal with Hx : _ = _ :> pc |- _ => injection Hx; intros; subst end; auto.
+    eexists. split; [reflexivity|split; assumption].
   Qed.
 
   (* a reader parked at GOpenL k it (holding the state lock shared) sees the current item of
      k, and the blob of that item is in the directory *)
-  Theorem C05_retry_sees_current g t ts k it : Reach g ->
-    tget (g_thr g) t = Some ts -> t_pc ts = GOpenL k it ->
+  Theorem C05_retry_sees_current g t ts k it md : Reach g ->
+    tget (g_thr g) t = Some ts -> t_pc ts = GOpenL k it md ->
     In t (g_R g) /\ g_S g = None /\ sm_get cmp (km (g_idx g)) k = Some it /\
     exists c, sm_get lex_cmp (g_cas g) (ihash it) = Some c /\ H c = ihash it /\ len c = isize it.
   Proof using cmp_refl cmp_eq cmp_antisym cmp_trans thr0_nodup cas0_sorted cas0_named NoCollideC.
@@ -556,6 +631,15 @@ Section ConcProofs.
       assert (E : g_R g = []) by (apply (ci_SR _ _ _ _ _ _ I); rewrite ES; discriminate).
       rewrite E in IR. destruct IR.
     - split; [exact Pt|]. apply (C04_no_dangling g R _ _ Pt).
+  Qed.
+
+  (* the answers computed from the index item alone *)
+  Lemma pre_open_cases md it r : pre_open md it = Some r ->
+    r = CSize (Some (isize it)) \/ r = CBytes (Some []) \/ r = CInvalid.
+  Proof using.
+    destruct md as [| |a b]; cbn [pre_open]; [discriminate|intros E; injection E as <-; auto|].
+    destruct (isize it <=? a); [intros E; injection E as <-; auto|].
+    destruct (N.min b (isize it) <? a); [intros E; injection E as <-; auto|discriminate].
   Qed.
 
   (* C05: reads never fail.  No step ever produces BlobDataMissing: the only step that can is
@@ -577,7 +661,9 @@ Section ConcProofs.
       try exact Hin;
       (apply in_app_or in Hin; destruct Hin as [Hin|[Hin|[]]]; [exact Hin|exfalso]);
       try discriminate;
-      try (destruct size_only; discriminate);
+      try (destruct md; discriminate);
+      try (match goal with Hp : pre_open _ _ = Some _ |- _ =>
+             rewrite Hin in Hp; destruct (pre_open_cases _ _ _ Hp) as [X|[X|X]]; discriminate X end);
       try (rewrite Hin in Pr; exact Pr);
       try (destruct ckbad; [discriminate Hin|rewrite Hin in Pr; exact Pr]).
     destruct (C04_no_dangling g R _ _ Pt) as (c1 & G1 & _). congruence.
@@ -621,7 +707,9 @@ Section ConcProofs.
       try exact Hin;
       (apply in_app_or in Hin; destruct Hin as [Hin|[Hin|[]]]; [exact Hin|exfalso]);
       try discriminate;
-      try (destruct size_only; discriminate);
+      try (destruct md; discriminate);
+      try (match goal with Hp : pre_open _ _ = Some _ |- _ =>
+             rewrite Hin in Hp; destruct (pre_open_cases _ _ _ Hp) as [X|[X|X]]; discriminate X end);
       try (rewrite Hin in Pr; exact Pr);
       try (rewrite NC in Hin; rewrite Hin in Pr; exact Pr);
       try (rewrite NB in Pt; discriminate Pt);
@@ -708,10 +796,13 @@ Print Assumptions C04_commit_window_protected.
 Print Assumptions C04_never_deletes_protected.
 Print Assumptions C04_apply_never_panics.
 Print Assumptions C15_lock_order.
+Print Assumptions C15_readers_shared_only.
+Print Assumptions C15_iter_step.
 Print Assumptions holds_sound.
 Print Assumptions acquires_sound.
 Print Assumptions acquires_complete.
 Print Assumptions C15_deadlock_free.
+Print Assumptions C05_read_returns_indexed_slice.
 Print Assumptions C05_read_returns_indexed_content.
 Print Assumptions C05_lookup_step.
 Print Assumptions C05_retry_sees_current.
